@@ -479,3 +479,212 @@ theorem runAll_stack (nfa : Nfa) (cfg : Cfg) (hf : NfaFwd nfa) (hnt : NoTrailing
         exact ih s1 s2 os (step_stack nfa cfg s s1 e o hf hnt h hst) hra
 
 end Varpulis.SaseB
+
+namespace Varpulis.SaseK
+open Varpulis.Zdd
+
+/-! ### guard equivalence: `NoTrailingAll` of the compiled automaton ⇔ the last step is not `all` -/
+
+theorem all_modify {P : State → Prop} {l : List State} (h : ∀ st ∈ l, P st) (i : Nat) (f : State → State)
+    (hf : ∀ st, P st → P (f st)) : ∀ st ∈ modifyAt l i f, P st := by
+  intro st hst
+  rcases mem_modify f l i st hst with h' | ⟨y, hy, rfl⟩
+  · exact h st h'
+  · exact hf y (h y hy)
+
+theorem getElem?_modifyAt_self (l : List State) (i : Nat) (f : State → State) (h : i < l.length) :
+    ∃ st0, (modifyAt l i f)[i]? = some (f st0) := by
+  refine ⟨l[i], ?_⟩
+  simp [modifyAt, List.getElem?_modify, List.getElem?_eq_getElem h]
+
+/-- invariant of the compilation loop about epsilon edges: no accept state yet, every epsilon target is an existing
+state, and the current end state is an epsilon target exactly when the step just compiled was an `all` step -/
+structure KInvC (n : Nfa) (last : Nat) (b : Bool) : Prop where
+  lastLt : last < n.states.length
+  noAcc : ∀ st ∈ n.states, st.ty ≠ .accept
+  epsLt : ∀ st ∈ n.states, ∀ e ∈ st.eps, e < n.states.length
+  notLast : b = false → ∀ st ∈ n.states, last ∉ st.eps
+  isLast : b = true → ∃ st ∈ n.states, last ∈ st.eps
+
+theorem kinvc_init : KInvC ({} : Nfa) 0 false := by
+  refine ⟨by simp, ?_, ?_, ?_, by simp⟩
+  · intro st hst; simp at hst; subst hst; simp
+  · intro st hst; simp at hst; subst hst; simp
+  · intro _ st hst; simp at hst; subst hst; simp
+
+theorem exists_mem_modifyAt {Q : State → Prop} (l : List State) (i : Nat) (f : State → State) (h : i < l.length)
+    (hq : ∀ st0, Q (f st0)) : ∃ st, st ∈ modifyAt l i f ∧ Q st := by
+  obtain ⟨st0, h0⟩ := getElem?_modifyAt_self l i f h
+  exact ⟨_, List.mem_of_getElem? h0, hq st0⟩
+
+theorem kinvc_compileStep {n : Nfa} {prev : Nat} {b : Bool} (h : KInvC n prev b) (s : Step) :
+    KInvC (compileStep n prev s).1 (compileStep n prev s).2 s.kleene := by
+  -- facts about the list after add_state + add_transition
+  have hA : ∀ st ∈ modifyAt (n.states ++ [{ ty := .normal, evTy := some s.ty, pred := s.pred, alias := s.alias }]) prev
+      (fun st => { st with trans := st.trans ++ [n.states.length] }),
+      st.ty ≠ .accept ∧ ∀ e ∈ st.eps, e < n.states.length := by
+    apply all_modify (P := fun st => st.ty ≠ .accept ∧ ∀ e ∈ st.eps, e < n.states.length)
+    · intro st hst
+      rcases List.mem_append.mp hst with h' | h'
+      · exact ⟨h.noAcc st h', h.epsLt st h'⟩
+      · simp at h'; subst h'; simp
+    · intro st hst; exact hst
+  by_cases hk : s.kleene = true
+  · have hAll : ∀ st ∈ (compileStep n prev s).1.states, st.ty ≠ .accept ∧ ∀ e ∈ st.eps, e < n.states.length + 2 := by
+      unfold compileStep
+      simp only [Nfa.addState, Nfa.addTransition, Nfa.addEpsilon, hk, Bool.not_true, Bool.false_eq_true, if_false]
+      refine all_modify (P := fun st => st.ty ≠ .accept ∧ ∀ e ∈ st.eps, e < n.states.length + 2) ?_ _ _ ?_
+      · intro st hst
+        rcases List.mem_append.mp hst with h' | h'
+        · refine all_modify (P := fun st => st.ty ≠ .accept ∧ ∀ e ∈ st.eps, e < n.states.length + 2)
+            (all_modify (P := fun st => st.ty ≠ .accept ∧ ∀ e ∈ st.eps, e < n.states.length + 2)
+              (fun st hst => ⟨(hA st hst).1, fun e he => by have := (hA st hst).2 e he; omega⟩) _ _ ?_) _ _ ?_ st h'
+          · intro st hst
+            split
+            · split <;> exact ⟨by simp, hst.2⟩
+            · exact ⟨by simp, hst.2⟩
+          · intro st hst
+            refine ⟨hst.1, ?_⟩
+            intro e he
+            simp at he
+            rcases he with he | rfl
+            · exact hst.2 e he
+            · omega
+        · simp at h'; subst h'; simp
+      · intro st hst
+        refine ⟨hst.1, ?_⟩
+        intro e he
+        simp [length_modifyAt] at he
+        rcases he with he | rfl
+        · exact hst.2 e he
+        · omega
+    have hlen : (compileStep n prev s).1.states.length = n.states.length + 2 ∧ (compileStep n prev s).2 = n.states.length + 1 := by
+      unfold compileStep
+      simp [Nfa.addState, Nfa.addTransition, Nfa.addEpsilon, hk, length_modifyAt]
+    have hex : ∃ st, st ∈ (compileStep n prev s).1.states ∧ (compileStep n prev s).2 ∈ st.eps := by
+      unfold compileStep
+      simp only [Nfa.addState, Nfa.addTransition, Nfa.addEpsilon, hk, Bool.not_true, Bool.false_eq_true, if_false]
+      apply exists_mem_modifyAt
+      · simp [length_modifyAt]; omega
+      · intro st0; simp
+    rw [hk]
+    exact ⟨by rw [hlen.1, hlen.2]; omega, fun st hst => (hAll st hst).1,
+      fun st hst e he => by rw [hlen.1]; exact (hAll st hst).2 e he, fun hc => by simp at hc, fun _ => hex⟩
+  · have hk' : s.kleene = false := by simpa using hk
+    rw [hk']
+    unfold compileStep
+    simp only [Nfa.addState, Nfa.addTransition, hk', Bool.not_false, if_true]
+    constructor
+    · simp [length_modifyAt]
+    · exact fun st hst => (hA st hst).1
+    · intro st hst e he
+      simp only [length_modifyAt, List.length_append, List.length_cons, List.length_nil]
+      exact Nat.lt_succ_of_lt ((hA st hst).2 e he)
+    · intro _ st hst hmem
+      have := (hA st hst).2 _ hmem
+      omega
+    · intro hc; simp at hc
+
+/-- whether the last step of the pattern is an `all` step (`b` for the empty pattern) -/
+def lastIsAll (steps : List Step) (b : Bool) : Bool := (steps.getLast?.map (·.kleene)).getD b
+
+theorem lastIsAll_cons (s : Step) (rest : List Step) (b : Bool) : lastIsAll (s :: rest) b = lastIsAll rest s.kleene := by
+  cases rest with
+  | nil => simp [lastIsAll]
+  | cons r rest =>
+    simp only [lastIsAll, List.getLast?_cons_cons]
+    have : (r :: rest).getLast? = some ((r :: rest).getLast (by simp)) := List.getLast?_eq_some_getLast (by simp)
+    rw [this]; rfl
+
+theorem kinvc_foldl (steps : List Step) : ∀ (n : Nfa) (prev : Nat) (b : Bool), KInvC n prev b →
+    KInvC (steps.foldl (fun (acc : Nfa × Nat) s => compileStep acc.1 acc.2 s) (n, prev)).1
+          (steps.foldl (fun (acc : Nfa × Nat) s => compileStep acc.1 acc.2 s) (n, prev)).2 (lastIsAll steps b) := by
+  induction steps with
+  | nil => intro n prev b h; simpa [lastIsAll] using h
+  | cons s rest ih =>
+    intro n prev b h
+    simp only [List.foldl_cons, lastIsAll_cons]
+    exact ih _ _ _ (kinvc_compileStep h s)
+
+theorem mem_modifyAt_of_mem (f : State → State) : ∀ (l : List State) (i : Nat) (st0 : State), st0 ∈ l →
+    st0 ∈ modifyAt l i f ∨ f st0 ∈ modifyAt l i f := by
+  intro l
+  induction l with
+  | nil => intro i st0 h; simp at h
+  | cons a l ih =>
+    intro i st0 h
+    cases i with
+    | zero =>
+      simp only [modifyAt, List.modify_zero_cons, List.mem_cons] at h ⊢
+      rcases h with rfl | h
+      · right; left; rfl
+      · left; right; exact h
+    | succ i =>
+      simp only [modifyAt, List.modify_succ_cons, List.mem_cons] at h ⊢
+      rcases h with rfl | h
+      · left; left; rfl
+      · rcases ih i st0 h with h' | h'
+        · left; right; exact h'
+        · right; right; exact h'
+
+/-- in the automaton whose end state was just marked `Accept`, a state id is an accept state iff it is the end state -/
+theorem accept_at_iff {n : Nfa} {last : Nat} {b : Bool} (h : KInvC n last b) (e : Nat) (he : e < n.states.length) :
+    (match (n.setAccept last).states[e]? with | some t => t.ty == STy.accept | none => false) = decide (e = last) := by
+  simp only [Nfa.setAccept, modifyAt, List.getElem?_modify, List.getElem?_eq_getElem he, Option.map_some]
+  by_cases hl : last = e
+  · subst hl; simp
+  · have hne : (n.states[e]).ty ≠ .accept := h.noAcc _ (List.getElem_mem he)
+    have : ¬ e = last := fun hc => hl hc.symm
+    simp [hl, this, hne]
+
+/-- **guard equivalence**: the compiled automaton has a state with an epsilon edge to `Accept` exactly when the
+pattern's last step is `all` -/
+theorem noTrailingAll_iff (steps : List Step) : NoTrailingAll (compile steps) ↔ lastIsAll steps false = false := by
+  have h := kinvc_foldl steps ({} : Nfa) 0 false kinvc_init
+  unfold compile NoTrailingAll
+  generalize (steps.foldl (fun (acc : Nfa × Nat) s => compileStep acc.1 acc.2 s) (({} : Nfa), 0)) = res at h
+  obtain ⟨n, last⟩ := res
+  simp only at h ⊢
+  -- per-state reading of the flag
+  have hflag : ∀ st ∈ (n.setAccept last).states,
+      (st.eps.any fun e => match (n.setAccept last).states[e]? with | some t => t.ty == STy.accept | none => false) = decide (last ∈ st.eps) := by
+    intro st hst
+    have hst' : st ∈ modifyAt n.states last (fun s => { s with ty := .accept }) := hst
+    have heps : ∀ e ∈ st.eps, e < n.states.length :=
+      all_modify (P := fun st => ∀ e ∈ st.eps, e < n.states.length) h.epsLt last
+        (fun s => { s with ty := .accept }) (fun st hst => hst) st hst'
+    by_cases hm : last ∈ st.eps
+    · simp only [hm, decide_true, List.any_eq_true]
+      exact ⟨last, hm, by rw [accept_at_iff h last (heps last hm)]; simp⟩
+    · simp only [hm, decide_false, List.any_eq_false]
+      intro e he
+      rw [accept_at_iff h e (heps e he)]
+      have : e ≠ last := fun hc => hm (hc ▸ he)
+      simp [this]
+  constructor
+  · intro hnt
+    cases hb : lastIsAll steps false with
+    | false => rfl
+    | true =>
+      exfalso
+      obtain ⟨st0, hst0, hlast⟩ := h.isLast hb
+      have : ∃ st1 ∈ (n.setAccept last).states, last ∈ st1.eps := by
+        rcases mem_modifyAt_of_mem (fun s => { s with ty := .accept }) n.states last st0 hst0 with h' | h'
+        · exact ⟨st0, h', hlast⟩
+        · exact ⟨_, h', hlast⟩
+      obtain ⟨st1, hst1, hl1⟩ := this
+      have h2 : (st1.eps.any fun e => match (n.setAccept last).states[e]? with | some t => t.ty == STy.accept | none => false) = false :=
+        hnt _ (List.mem_map.mpr ⟨st1, hst1, rfl⟩)
+      rw [hflag st1 hst1] at h2
+      simp [hl1] at h2
+  · intro hb st hst
+    rcases List.mem_map.mp hst with ⟨st1, hst1, rfl⟩
+    have hst1' : st1 ∈ modifyAt n.states last (fun s => { s with ty := .accept }) := hst1
+    have hnot : last ∉ st1.eps :=
+      all_modify (P := fun st => last ∉ st.eps) (h.notLast hb) last (fun s => { s with ty := .accept })
+        (fun st hst => hst) st1 hst1'
+    show (st1.eps.any fun e => match (n.setAccept last).states[e]? with | some t => t.ty == STy.accept | none => false) = false
+    rw [hflag st1 hst1]
+    simp [hnot]
+
+end Varpulis.SaseK
